@@ -422,7 +422,7 @@ class Weaver:
             if new_x[0] != self.x[0] or new_x[-1] != self.x[-1]:
                 raise ValueError("new_x should have the same range as x")
         self.y = interpolate(self.x, self.y, new_x, method=method, **kwargs)
-        self.x = new_x
+        self.x = np.asarray(new_x)
         return self
 
     def recreate_from_average(self, n: int, rfa_class: type[AbstractRFA] = ExpAdaptiveRFA, **kwargs, ):
